@@ -356,5 +356,9 @@ func main() {
 	for i := 0; i < run.Scale(300, 2500); i++ {
 		shadowCase(run, i)
 	}
+	// the layers above the store: HTTP handler, RPC endpoint with ACLs, Raft (see layers.go)
+	for i := 0; i < run.Scale(150, 1200); i++ {
+		layeredCase(run, i)
+	}
 	run.Finish()
 }
